@@ -271,6 +271,20 @@ def load_known():
 # --------------------------------------------------------------------------
 # check context
 # --------------------------------------------------------------------------
+# Which enumeration plan a tier runs.  The tier names the registered command (and the deadline); the plan names the bounds.
+# Checks whose former thorough plan completes in well under a minute run it on every change, and their thorough tier
+# runs the "deep" plan (the thorough plan plus the extensions marked `plan == "deep"` in the check).
+FAST = ("C08", "C09", "C10", "C12", "C13", "C14")
+
+
+def plan_of(prop, tier):
+    if os.environ.get("VERIF_PLAN"):
+        return os.environ["VERIF_PLAN"]
+    if prop in FAST:
+        return "thorough" if tier == "quick" else "deep"
+    return tier
+
+
 class Ctx:
     def __init__(self, prop, tier, level):
         self.prop = prop
